@@ -23,6 +23,8 @@ for f in /tmp/mv/all/*.log; do
   grep -q "exit=1" $f && continue
   if grep -q '"status": "equivalent' /verif/seeded/$id/meta.json 2>/dev/null; then
     echo "  $id (recorded as equivalent on the current tree: see its meta.json)"
+  elif grep -q '"status": "outside' /verif/seeded/$id/meta.json 2>/dev/null; then
+    echo "  $id (recorded as outside the property as stated: see its meta.json)"
   else
     echo "  $id"
   fi
